@@ -13,6 +13,10 @@ CHECKS = {
             "exploration: every 1-cut of every corpus message and of 2-message pipelines with keep-alive patterns, every 2-cut in thorough (1.18 M segmentations), random sequences with decoy headers, all Content-Length spellings, bodies up to 65535 B, heads up to 4096 B",
             "trusts tokio_util FramedRead, the datagram parser as reference (body and header count cross-checked against the generator), hook H1",
             "DESIGN.md 3/C03", "E-codec"),
+    'C04': ("proptest over timed message histories on a small identifier alphabet under a paused tokio clock; oracle = symbolic RFC 3261 17.1.3/17.2.3 matching + transaction-lifetime reference model",
+            "exploration: sampled histories (3..12 events) of peer requests / retransmissions / ACK / CANCEL, application answers, client sends and responses with equal-or-different branch and CSeq method, RFC 3261 and cookie-less branches, role-confusion probes, arrivals +-4 ms around each end of life; decides absorbed / shown to layers / delivered to which client transaction",
+            "trusts tokio's paused clock, hook H2, the reference model (identifier equality + ref_tsx lifetimes); ambiguous instants (within 3 ms of an end of life, INVITE timeout window) stop the comparison",
+            "DESIGN.md 3/C04", "E-world"),
     'C05': ("proptest + exhaustive grid enumeration of scripted response arrivals under a paused tokio clock; oracle = RFC 3261 timer reference model",
             "exploration: every first-response instant that brackets a timer edge is enumerated for both transaction kinds and reliabilities, response tails are sampled; decides send instants, byte identity, timeout instant, T4 absorber",
             "trusts tokio's paused clock, hook H2 (tokio Instant in transactions), the 40-line ref_tsx schedule model and the mock transport",
@@ -25,6 +29,18 @@ CHECKS = {
             "exploration: sampled request shapes (Route, display names, IPv6, Via override) and response histories (forks, retransmitted finals around 32 s and 64*T1); decides ACK presence per response, ACK header equality, destination, and the receive() sequence",
             "trusts tokio's paused clock, hook H2, the WireMsg reader, the mock transport",
             "DESIGN.md 3/C07", "E-world"),
+    'C14': ("exhaustive enumeration of the endpoint configuration space (29 952 configurations) + proptest over request sequences against one endpoint; oracle = independent eligibility decision table (ref_select)",
+            "exploration, exhaustive over the finite configuration product (datagram subsets x factory configs incl. registration order and connect failure x pre-existing connections x sip/sips x IPv4/IPv6 literal x port x pinning); sequences sampled so that earlier requests create the pre-existing connections",
+            "trusts the mock transports/factories, ref_select, tokio paused clock; HashMap order handled by membership in the admissible set",
+            "DESIGN.md 3/C14", "E-world"),
+    'C18': ("proptest over the cross product of Digest challenge parameters and challenge sequences, driving the public UacAuthSession API; oracle = independent RFC 7616/2617/8760 verifier (ref_digest) recomputing the response from the stored credentials and the printed header",
+            "exploration: algorithm x qop-set x userhash x opaque x stale x UTF-8 realm/nonce/user/password x method x URI x body, 1..5 reuses with nc tracking, multi-realm / mixed WWW+Proxy / repeated-nonce sequences",
+            "trusts md5/sha2 primitive crates and the 300-line ref_digest (unit-tested against the RFC 2617/7616 vectors)",
+            "DESIGN.md 3/C18", "E-codec"),
+    'C20': ("proptest over STUN messages/attributes with constructed zero-tail shapes, exhaustive single-bit flips, exhaustive 2^7 loss patterns under a paused clock; oracle = independent RFC 8489/8656 encoder+decoder+verifier (ref_stun, checked against RFC 5769 vectors)",
+            "exploration: builder output byte-compared with the reference encoder, reference-encoded messages decoded by ezk, integrity/fingerprint cross-verification and every single-bit corruption of protected messages, parser no-panic on arbitrary/mutated bytes, SIP/STUN demultiplexing, client retry schedule for all loss patterns and table cleanup on return/error/drop",
+            "trusts hmac/sha1/sha2/md5 primitive crates, ref_stun, tokio paused clock, hook H3 (pending count)",
+            "DESIGN.md 3/C20", "E-codec"),
 }
 
 PENDING_REASON = "check not yet built in this snapshot of /verif (planned, see DESIGN.md section 3)"
